@@ -660,7 +660,13 @@ func verifC17Grace() map[string]interface{} {
 		}
 		if !stuck && len(fullC) == 1 {
 			post(uint32(vaa.ChainIDEthereum), 3, 0)
-			time.Sleep(2 * time.Millisecond)
+			// room is made only after the dispatcher had twenty times the time it needed per request in the burst just measured
+			// (2 ms at least): on a loaded machine the wait grows with the load, so a late scheduling of the dispatcher is not mistaken for a wait
+			wait := 20 * base / 41
+			if wait < 2*time.Millisecond {
+				wait = 2 * time.Millisecond
+			}
+			time.Sleep(wait)
 			<-fullC
 			time.Sleep(60 * time.Millisecond)
 			if len(fullC) > 0 {
@@ -673,7 +679,7 @@ func verifC17Grace() map[string]interface{} {
 		mon = append(mon, fmt.Sprintf("the dispatcher was blocked by requests for a watcher whose queue is full: 40 such requests held up a request for an idle watcher (up to %v; more than 150 ms longer than 40 requests for a chain without a watcher) in %d of %d trials", worst.Round(time.Millisecond), slow, trials))
 	}
 	if late*2 > trials {
-		mon = append(mon, fmt.Sprintf("the dispatcher blocked on a full watcher queue instead of dropping: a request that found the queue full was delivered after room was made 2 ms later, in %d of %d trials", late, trials))
+		mon = append(mon, fmt.Sprintf("the dispatcher blocked on a full watcher queue instead of dropping: a request that found the queue full was delivered after room was made a moment (2 ms or more) later, in %d of %d trials", late, trials))
 	}
 	row["mon"] = mon
 	row["slow_trials"], row["late_trials"], row["trials"] = slow, late, trials
